@@ -75,7 +75,9 @@ Proof.
   destruct (nth_error (d_states d) q) as [st|] eqn:En; [|reflexivity].
   destruct st as [ts|brs|]; [| |reflexivity].
   - destruct (select ts s) as [t|] eqn:Es.
-    + unfold body. apply run_acts_good; [intros; apply IH|].
+    + destruct (is_end s && accepting d q && negb (has (t_on t) sym_end)).
+      { cbn. unfold source_return. destruct (accepting d q); [reflexivity|]. destruct (is_end s); reflexivity. }
+      unfold body. apply run_acts_good; [intros; apply IH|].
       eapply state_trans_wf; eauto. cbn. eapply select_in; eauto.
     + cbn. unfold source_return. destruct (accepting d q); [reflexivity|]. destruct (is_end s); reflexivity.
   - assert (G : forall l, (forall c t, In (c, t) l -> atree_wf (t_acts t) = true) ->
